@@ -731,7 +731,7 @@ Proof. vm_compute. eexists. split; [reflexivity|]. split; reflexivity. Qed.
     tier, supporting evidence). *)
 
 Inductive field := FSync | FTs | FMeta | FLat | FTree.
-Inductive mutex := MuTs | MuMeta | MuLat | MuTree.
+Inductive mutex := MuW | MuTs | MuMeta | MuLat | MuTree.
 Inductive thread := Stream | Refresh.
 
 Record access := Acs {
@@ -744,34 +744,40 @@ Definition field_eqb (a b : field) : bool :=
   end.
 Definition mutex_eqb (a b : mutex) : bool :=
   match a, b with
-  | MuTs, MuTs | MuMeta, MuMeta | MuLat, MuLat | MuTree, MuTree => true
+  | MuW, MuW | MuTs, MuTs | MuMeta, MuMeta | MuLat, MuLat | MuTree, MuTree => true
   | _, _ => false
   end.
 Definition thread_eqb (a b : thread) : bool :=
   match a, b with Stream, Stream | Refresh, Refresh => true | _, _ => false end.
 
+(** Since b865e5c [Target.wmu] ([MuW]) is held across Target.GnmiUpdate
+    (including its deferred checkTimestamp), updateMeta and Reset: every site
+    that touches [t.sync] / [t.ts] runs under it.  UpdateSize takes no [wmu]; it
+    touches only the tree (its own locks) and the metadata values (their mutex). *)
 Definition accesses : list access :=
   [ (* t.sync *)
-    Acs FSync true Stream [] "gnmiUpdate: t.sync = tv.BoolVal (meta/sync written by Sync())";
-    Acs FSync false Stream [] "gnmiUpdate: if t.sync && realData / if t.sync";
-    Acs FSync true Refresh [] "generateMetaUpdates -> gnmiUpdate(meta/sync): t.sync = tv.BoolVal";
+    Acs FSync true Stream [MuW] "gnmiUpdate: t.sync = tv.BoolVal (meta/sync written by Sync()), under Target.GnmiUpdate";
+    Acs FSync false Stream [MuW] "gnmiUpdate: if t.sync && realData / if t.sync, under Target.GnmiUpdate";
+    Acs FSync true Refresh [MuW] "updateMeta -> generateMetaUpdates -> gnmiUpdate(meta/sync): t.sync = tv.BoolVal";
+    Acs FSync false Refresh [MuW] "updateMeta -> generateMetaUpdates -> gnmiUpdate: if t.sync";
     (* t.ts *)
-    Acs FTs true Stream [MuTs] "checkTimestamp (deferred in Target.GnmiUpdate)";
-    Acs FTs true Stream [MuTs] "resetTimestamp (Reset)";
-    Acs FTs false Stream [] "gnmiUpdate: t.ts.UnixNano() / nts.Sub(t.ts) in the future check";
-    Acs FTs false Refresh [MuTs] "updateMeta: latest := t.ts";
-    Acs FTs false Refresh [] "generateMetaUpdates -> gnmiUpdate: future check reads t.ts";
+    Acs FTs true Stream [MuW; MuTs] "checkTimestamp (deferred in Target.GnmiUpdate, runs before the deferred Unlock)";
+    Acs FTs true Stream [MuW; MuTs] "resetTimestamp (Reset)";
+    Acs FTs false Stream [MuW] "gnmiUpdate: t.ts.UnixNano() / nts.Sub(t.ts) in the future check";
+    Acs FTs false Refresh [MuW; MuTs] "updateMetaLocked: latest := t.ts";
+    Acs FTs false Refresh [MuW] "generateMetaUpdates -> gnmiUpdate: future check reads t.ts";
     (* metadata values: every access goes through metadata.Metadata's methods *)
-    Acs FMeta true Stream [MuMeta] "meta.AddInt / SetBool / SetStr / ResetEntry / Clear";
-    Acs FMeta true Refresh [MuMeta] "meta.SetInt (latest, size, latency stats)";
-    Acs FMeta false Refresh [MuMeta] "meta.GetBool / GetInt / GetStr in generateMetaUpdates";
+    Acs FMeta true Stream [MuW; MuMeta] "meta.AddInt / SetBool / SetStr / ResetEntry / Clear";
+    Acs FMeta true Refresh [MuW; MuMeta] "meta.SetInt (latest, latency stats) in updateMetaLocked";
+    Acs FMeta true Refresh [MuMeta] "meta.SetInt (size) in updateSize";
+    Acs FMeta false Refresh [MuW; MuMeta] "meta.GetBool / GetInt / GetStr in generateMetaUpdates";
     (* latency accumulators *)
-    Acs FLat true Stream [MuLat] "lat.Compute";
-    Acs FLat true Refresh [MuLat] "lat.UpdateReset";
+    Acs FLat true Stream [MuW; MuLat] "lat.Compute";
+    Acs FLat true Refresh [MuW; MuLat] "lat.UpdateReset";
     (* the tree *)
-    Acs FTree true Stream [MuTree] "t.t.Add / Leaf.Update / WalkDeleted / Delete";
-    Acs FTree true Refresh [MuTree] "generateMetaUpdates -> gnmiUpdate: t.t.Add / Leaf.Update";
-    Acs FTree false Refresh [MuTree] "updateSize: t.t.Query; GetLeafValue" ].
+    Acs FTree true Stream [MuW; MuTree] "t.t.Add / Leaf.Update / WalkDeleted / Delete";
+    Acs FTree true Refresh [MuW; MuTree] "generateMetaUpdates -> gnmiUpdate: t.t.Add / Leaf.Update";
+    Acs FTree false Refresh [MuTree] "updateSize: t.t.Query" ].
 
 Definition share_lock (a b : access) : bool :=
   existsb (fun m => existsb (mutex_eqb m) (ac_held b)) (ac_held a).
@@ -785,16 +791,22 @@ Definition no_unprotected_access (f : field) : bool :=
   forallb (fun a => forallb (fun b =>
     negb (field_eqb (ac_field a) f && conflict a b) || share_lock a b) accesses) accesses.
 
-Theorem lockset_meta_lat_tree :
-  no_unprotected_access FMeta = true /\ no_unprotected_access FLat = true /\
-  no_unprotected_access FTree = true.
-Proof. vm_compute. repeat split. Qed.
+(** every conflicting pair of access sites shares a mutex *)
+Theorem lockset_all : forall f, no_unprotected_access f = true.
+Proof. intros []; vm_compute; reflexivity. Qed.
 
-(** FULL STATEMENT (false, known finding KF-C15-4 / DESIGN 7.13):
-      forall f, no_unprotected_access f = true. *)
-Theorem lockset_sync_ts_refuted :
-  no_unprotected_access FSync = false /\ no_unprotected_access FTs = false.
-Proof. vm_compute. split; reflexivity. Qed.
+(** before b865e5c the sites of [t.sync] / [t.ts] held no common lock (known
+    finding 7.13, reported by the race detector on the workload of
+    harness/c15/race.go); the annotation without [MuW]: *)
+Definition accesses_before_wmu : list access :=
+  map (fun a => Acs (ac_field a) (ac_write a) (ac_thread a)
+                    (filter (fun m => negb (mutex_eqb m MuW)) (ac_held a)) (ac_site a)) accesses.
+
+Example lockset_before_wmu_refuted :
+  forallb (fun a => forallb (fun b =>
+    negb (field_eqb (ac_field a) FSync && conflict a b) || share_lock a b) accesses_before_wmu)
+    accesses_before_wmu = false.
+Proof. vm_compute. reflexivity. Qed.
 
 (** * Examples *)
 
